@@ -457,6 +457,10 @@ def main():
             continue
         nctx = len(F.contexts(tier))
         t0 = time.time()
+        if rank == 0 and chk.out_of_time(0.75):
+            chk.cap("%s: %s not run (time budget exhausted; machine slower than the tier was sized for)" % (fam, F.describe(lv)))
+            capped.add(fam)
+            continue
         if rank > 0:
             est_n = F.count(tier, lv) * nctx
             est = est_n / rate if rate else 0
